@@ -4,7 +4,7 @@ import copy
 
 import numpy as np
 
-from vlib import clock, graphs as G, gens
+from vlib import alias, clock, graphs as G, gens
 from vlib.base import import_dsw
 from vlib.coding import monitored
 from vlib.proxies import CountingAccessor
@@ -173,6 +173,12 @@ def check_history(ctx, case):
         wide = np.full((acc.shape[0], 8), -1, dtype=acc.dtype)
         wide[:, ::2] = acc
         acc = wide[:, ::2]
+    if ctx.rng.random() < 0.4:
+        for v in range(len(acc)) if len(acc) <= 64 else ctx.rng.sample(range(len(acc)), 16):
+            alias.caller_edit(dsw.obtain_latters(current=v, observed_length=k), ctx.rng)
+            alias.caller_edit(dsw.obtain_latters(v, k), ctx.rng)
+            alias.caller_edit(dsw.obtain_formers(current=v, observed_length=k), ctx.rng)
+        ctx.cls("history preceded by edited successor lists")
     ctx.cls("views|" + views)
     steps = lost_last = 0
     ident = True
